@@ -251,6 +251,7 @@ def op_key(op):
         k["use_cpp"] = bool(op.get("use_cpp"))
         k["cpp_args"] = op.get("cpp_args")
         k["io_fault"] = op.get("io_fault")
+        k["default_parser"] = bool(op.get("default_parser"))
     if op["op"] == "gen":
         k["select"] = op.get("select")
         k["reduce"] = bool(op.get("reduce"))
